@@ -1,7 +1,7 @@
 (* Properties_C04.v — C04: Factor followed by Solve returns x with A x = b in every block.
    Property theorems only; proofs in LUProofs.v.  The theorems are per block: LU.v models one
    block, and the tie checks that the implementation treats every block / lane that way. *)
-From Model Require Import Base LU LUProofs DoolittleProofs DoolittleIPProofs MozartIPProofs.
+From Model Require Import Base LU LUProofs DoolittleProofs DoolittleIPProofs MozartIPProofs MozartProofs.
 From Coq Require Import Field.
 Local Open Scope nat_scope.
 
@@ -91,3 +91,19 @@ Theorem C04_doolittle_factor_then_solve :
     forall r, r < n -> nsum N n (fun c => nmul N (view N Ap A r c) (x c)) = b r.
 Proof. exact doolittle_factor_then_solve. Qed.
 Print Assumptions C04_doolittle_factor_then_solve.
+
+(* and for LuDecompositionMozart followed by LinearSolver::Solve (A's pattern holds the diagonal, as every Jacobian
+   pattern built by the solver does): with this all four factorisations are covered end to end *)
+Theorem C04_mozart_factor_then_solve :
+  forall (N : Num)
+    (Nfield : field_theory (n0 N) (n1 N) (nadd N) (nmul N) (nsub N) (nopp N) (ndiv N) (ninv N) eq)
+    n (A : mat N) (Ap : pat) (L0 U0 : mat N) (b : vec N),
+    (forall i, i < n -> Ap i i = true) ->
+    let Lp := fst (mozart_sym n Ap) in
+    let Up := snd (mozart_sym n Ap) in
+    let LU := mozart_num N n A Ap Lp Up L0 U0 in
+    (forall i, i < n -> snd LU i i <> n0 N) ->
+    let x := lin_solve N n Lp Up (fst LU) (snd LU) b in
+    forall r, r < n -> nsum N n (fun c => nmul N (view N Ap A r c) (x c)) = b r.
+Proof. exact mozart_factor_then_solve. Qed.
+Print Assumptions C04_mozart_factor_then_solve.
